@@ -267,6 +267,13 @@ def run(rep, tier):
     for lab, u in us.items():
         ncap += c12_audit.cap0_rule(rep, u, {lab if lab.startswith("src/") else "include/" + lab})
     rep.floor("returned capacity - 1", ncap, 1)
+    rep.floor("hex decoder capacity cases", c12_audit.hex2bin_exact_rule(rep, us["src/utils/buf_str.c"]), 10)
+    rep.floor("Base64-style 'too small' returns in buf_str.c", c12_audit.need_size_rule(rep, us["src/utils/buf_str.c"], hdr="src/utils/buf_str.c", code="EOVERFLOW"), 2)
+    # two OS-information helpers outside the anchored files that take (buffer, length) like the utilities above (third audit pass)
+    ux = driver.load_units([common.src_unit("src/utils/sys.c"), common.src_unit("src/utils/info.c")])
+    rep.use_units(ux)
+    rep.floor("home directory cases", c12_audit.home_dir_rule(rep, ux["src/utils/sys.c"]), 4)
+    rep.floor("sysctl text cases", c12_audit.sysctl_terminator_rule(rep, ux["src/utils/info.c"]), 3)
     rep.floor("functions analysed", nfn, 130)
     rep.floor("tracked memory accesses", total, 300)
     return driver.finish(
